@@ -267,7 +267,7 @@ func GenCase(r *rand.Rand, seed int64, kind string) Case {
 		cs.Chain = []ActionSpec{script}
 		cs.EventTimeoutMs = 30000
 		cs.Out.Plain = false
-		cs.Out.Retry = pickInt(r, -1, 0, 1, 2, 3, 5)
+		cs.Out.Retry = pickInt(r, -1, -2, -7, 0, 1, 2, 3, 5)
 		cs.Out.RetentMs = pickInt(r, 2, 5, 10)
 		cs.Out.Mult = float64(pickInt(r, 1, 2, 3))
 		n := 1 + r.Intn(4)
